@@ -72,6 +72,13 @@ pub fn case(seed: u64, lane: Lane, trace: bool) -> CaseOut {
         h.cli_t[0].max_uni = h.cli_t[0].max_uni.max(2);
     }
     h.policy = *r.pick(&[IncomingPolicy::Accept, IncomingPolicy::Accept, IncomingPolicy::RetryFirst]);
+    {
+        // (own generator: the draws above and below stay what they were)
+        let mut r2 = Rng::new(seed ^ 0xC1D);
+        if r2.chance(30) {
+            h.cid_lifetime_ms = Some(*r2.pick(&[30, 100, 400]));
+        }
+    }
     let ending = *r.pick(&[Ending::CloseClient, Ending::CloseServer, Ending::CloseBoth, Ending::VanishClient, Ending::VanishServer, Ending::IdleBoth]);
     let mut w = h.build();
     w.mon.log_transmits = true;
@@ -316,6 +323,9 @@ pub fn case(seed: u64, lane: Lane, trace: bool) -> CaseOut {
         w.mon.violate("C08", format!("{m} | ending={ending:?} prefix_steps={prefix_steps} close_at={close_at} {}", h.summary()));
     }
     w.mon.cnt.merge(&cnt);
+    // identifiers of a forgotten connection stop routing: that includes the reset tokens of CIDs
+    // its peer rotated away while it lived
+    super::c09::retired_token_phase(&mut w, &mut Rng::new(seed ^ 0x70C), lane);
     let mut ran = Ran { w, end };
     let mut out = base_out(&h, &mut ran, trace);
     out.nontrivial = true;
